@@ -14,6 +14,7 @@ from dalimc.spec import ref_codec as R
 from dalimc.aio.engine import execute, Caller
 
 ID = "C20"
+OPTIMISED_STRIDE = {"quick": 12, "thorough": 24}      # every k-th shard once more in an interpreter started with -O
 LEVEL = "model_checking"
 ENGINE = "E3"
 TECHNIQUE = "controlled-scheduler exploration of the real bus watcher / serial receivers fed with enumerated traffic histories; reference automaton transcribed from the statement"
